@@ -2,9 +2,19 @@
    - the ten 256-colour tables in drxtract/palettes/*.py (module-level tuple of int literals)
    - BW / 16-colour tables and the PALETTES dict {depth: {name: TABLE}} in drxtract/bitd/decoder.py"""
 import ast
-from gen_tables import parse, emit, coq_bytes, TranslatorError, HEADER, module_assign, const_int, const_str
+from gen_tables import parse, emit, coq_bytes, TranslatorError, HEADER, module_assign, const_int, const_str, module_value
 
 FILES = ['grayscale', 'metallic', 'ntsc', 'pastels', 'rainbow', 'systemMac', 'systemWin', 'systemWinDir4', 'vivid', 'web216']
+
+def int_tuple_of(tree, rel, name):
+    """the table NAME of module REL: from the literal, or - when it is not written as a tuple literal any more - its value"""
+    try:
+        return int_tuple(module_assign(tree, name), name)
+    except TranslatorError as e:
+        val = module_value(rel, name, e)
+        if not (isinstance(val, (tuple, list)) and all(isinstance(v, int) and not isinstance(v, bool) and 0 <= v <= 255 for v in val)):
+            raise TranslatorError('%s is not a sequence of byte values' % name)
+        return list(val)
 
 def int_tuple(node, what):
     if not isinstance(node, ast.Tuple):
@@ -36,27 +46,44 @@ def generate():
         names = [n for n, m in imported.items() if m == mod]
         if len(names) != 1:
             raise TranslatorError('palettes/__init__.py does not import exactly one table from %s' % mod)
-        vals = int_tuple(module_assign(tree, names[0]), names[0])
+        vals = int_tuple_of(tree, 'drxtract/palettes/%s.py' % mod, names[0])
         tables[names[0]] = vals
     dec = parse('drxtract/bitd/decoder.py')
     for name in ('BW_PALETTE', 'SYSTEM_MAC_16COLORS_PALETTE', 'SYSTEM_WINDOWS_16COLORS_PALETTE'):
-        tables[name] = int_tuple(module_assign(dec, name), name)
+        tables[name] = int_tuple_of(dec, 'drxtract/bitd/decoder.py', name)
     for name, vals in tables.items():
         out.append(table_def(name, vals))
-    pal = module_assign(dec, 'PALETTES')
-    if not isinstance(pal, ast.Dict):
-        raise TranslatorError('PALETTES is not a dict literal')
     rows = []
-    for k, v in zip(pal.keys, pal.values):
-        depth = const_int(k)
-        if not isinstance(v, ast.Dict):
-            raise TranslatorError('PALETTES[%d] is not a dict literal' % depth)
-        ents = []
-        for nk, nv in zip(v.keys, v.values):
-            nm = const_str(nk)
-            if not (isinstance(nv, ast.Name) and nv.id in tables):
-                raise TranslatorError('PALETTES[%d][%r] is not one of the known tables' % (depth, nm))
-            ents.append('(%s (* %s *), %s)' % (coq_bytes(nm), nm, nv.id))
-        rows.append('(%d, [\n    %s])' % (depth, ';\n    '.join(ents)))
+    try:
+        pal = module_assign(dec, 'PALETTES')
+        if not isinstance(pal, ast.Dict):
+            raise TranslatorError('PALETTES is not a dict literal')
+        for k, v in zip(pal.keys, pal.values):
+            depth = const_int(k)
+            if not isinstance(v, ast.Dict):
+                raise TranslatorError('PALETTES[%d] is not a dict literal' % depth)
+            ents = []
+            for nk, nv in zip(v.keys, v.values):
+                nm = const_str(nk)
+                if not (isinstance(nv, ast.Name) and nv.id in tables):
+                    raise TranslatorError('PALETTES[%d][%r] is not one of the known tables' % (depth, nm))
+                ents.append('(%s (* %s *), %s)' % (coq_bytes(nm), nm, nv.id))
+            rows.append('(%d, [\n    %s])' % (depth, ';\n    '.join(ents)))
+    except TranslatorError as e:
+        # not a literal of literals any more: take the value and recognise each table by its content
+        rows = []
+        val = module_value('drxtract/bitd/decoder.py', 'PALETTES', e)
+        if not isinstance(val, dict):
+            raise TranslatorError('PALETTES is not a dict')
+        for depth, v in val.items():
+            if not (isinstance(depth, int) and isinstance(v, dict)):
+                raise TranslatorError('PALETTES[%r] is not a dict keyed by an int depth' % (depth,))
+            ents = []
+            for nm, tv in v.items():
+                hit = [t for t, vals in tables.items() if list(tv) == vals]
+                if not isinstance(nm, str) or len(hit) < 1:
+                    raise TranslatorError('PALETTES[%d][%r] is not one of the known tables' % (depth, nm))
+                ents.append('(%s (* %s *), %s)' % (coq_bytes(nm), nm, hit[0]))
+            rows.append('(%d, [\n    %s])' % (depth, ';\n    '.join(ents)))
     out.append('Definition PALETTES : list (Z * list (list byte * list byte)) := [\n  %s].\n' % ';\n  '.join(rows))
     emit('Gen_Palettes.v', '\n'.join(out))
